@@ -138,3 +138,21 @@ type QCtxPHolder struct {
 	P  *QCtxMP
 	Z  string
 }
+
+// QTagged2: omitempty members of the remaining kinds (each has its own head opcode), behind a
+// first member whose emptiness is independent of theirs.
+type QTagged2 struct {
+	Pad int64   `json:"pad,omitempty"`
+	B   bool    `json:"b,omitempty"`
+	I8  int8    `json:"i8,omitempty"`
+	U16 uint16  `json:"u16,omitempty"`
+	F32 float32 `json:"f32,omitempty"`
+	F64 float64 `json:"f64,omitempty"`
+	By  []byte  `json:"by,omitempty"`
+	Ar  [2]int  `json:"ar,omitempty"`
+	St  QLeaf   `json:"st,omitempty"`
+	BP  *bool   `json:"bp,omitempty"`
+	SP  *string `json:"sp,omitempty"`
+	U   uint    `json:"u,omitempty"`
+	Z   int     `json:"z"`
+}
